@@ -675,6 +675,11 @@ pub fn check(prop: &Prop, tier: Tier, seed: u64) -> i32 {
   }
   let exh = if prop.parts.iter().all(|p| p.exhaustive_depth.is_some()) { all_exhaustive } else { all_exhaustive.map(|_| false) };
   parts_json.push(json!({"regression_tapes_replayed": regress_run, "known_findings_active": active}));
+  if let Ok(info) = std::env::var("RXV_FUZZ_INFO") {
+    if let Ok(j) = serde_json::from_str::<J>(&info) {
+      parts_json.push(json!({"name": "libFuzzer campaign (coverage-guided, same generators and oracle in-target)", "result": j}));
+    }
+  }
   let wall = t0.elapsed().as_secs_f64();
   write_evidence(prop, tier, seed, &total, exh, &parts_json, wall, violations.len() as u64);
   println!(
